@@ -12,3 +12,4 @@ print(len(r.obligations),"obligations;", sum(1 for o in r.obligations if o['stat
 for f in r.functions: print(" extracted", f['name'], f['lines'], f['rewrites'], f.get('verified'))
 print("trusted:", len(r.trusted))
 print("hints removed:", getattr(r,'hints_removed',None))
+print("unmatched wraps:", getattr(r,"unmatched_wraps",None))
